@@ -35,7 +35,7 @@ CONFIG = {
     'internal_monitors': ['c03.fresh_atom'],
     'deciding': ['c03.modelcheck'],
     'shards': {'quick': 16, 'thorough': 16},
-    'hashseeds': {'quick': 4, 'thorough': 8},
+    'hashseeds': {'quick': 8, 'thorough': 16},
     'min_evals': {'quick': {'c03.modelcheck': 15000, 'c03.fresh_atom': 10000,
                             'c03.certificate': 3000},
                   'thorough': {'c03.modelcheck': 300000}},
@@ -235,6 +235,25 @@ def collision_cases():
             out.append((nk, ('E', ('F', ('and', ('not', Ag), Eg)))))
             out.append((nk, ('A', ('G', ('imply', Eg, Ag)))))
             out.append((nk, ('E', ('U', Eg, Ag))))
+    # three levels of quantifiers with temporal operators in between
+    r3_ = gen.rng(0, PROP, 'nest3')
+    tops = [lambda x: ('F', x), lambda x: ('G', x), lambda x: ('X', x),
+            lambda x: ('U', p, x), lambda x: ('U', x, q),
+            lambda x: ('R', q, x), lambda x: ('not', ('F', x)),
+            lambda x: ('and', ('F', x), ('G', ('or', p, q))),
+            lambda x: ('U', ('not', x), q)]
+    for _ in range(160):
+        t = r3_.choice([p, q])
+        for lvl in range(3):
+            t = (r3_.choice('AE'), r3_.choice(tops)(t))
+            if r3_.random() < 0.3:
+                t = ('not', t)
+        nk = r3_.choice(shapes2 + [
+            NK(range(4), [0b0110, 0b1000, 0b0001, 0b1000],
+               [{'p'}, {'q'}, set(), {'p', 'q'}]),
+            NK(range(5), [0b00010, 0b00101, 0b01000, 0b10000, 0b00100],
+               [{'p'}, set(), {'q'}, {'p'}, {'q'}])])
+        out.append((nk, t))
     # flat n-ary and/or of path formulas under one quantifier, with each
     # position deciding the outcome somewhere
     X = lambda a: ('X', a)
@@ -321,8 +340,9 @@ def run(ctx):
             run_case(nk, t, 2)
     for k in range(nrandom):
         nk = gen.random_structure(r, 5)
-        t = gen.random_ctls_state(r, r.randint(2, 4), qdepth=2,
-                                  max_temporal=3)
+        t = gen.random_ctls_state(r, r.randint(2, 4),
+                                  qdepth=2 if k % 4 else 3,
+                                  max_temporal=3 if k % 4 else 2)
         if not ctx.mine(k):
             continue
         if k % 3 == 0:
